@@ -9,7 +9,7 @@ use fvh::*;
 
 fn gen_case(seed: u64, i: u64) -> Case {
     let mut r = Rng::for_case(seed, i);
-    let fc = gen_flow_function(&mut r, &FlowOpts { intrinsics_pct: 30, branches_pct: 15, unreachable_pct: 20 });
+    let fc = gen_flow_function(&mut r, &FlowOpts { intrinsics_pct: 30, branches_pct: 15, unreachable_pct: 20, mixed_width_pct: 20 });
     let f = &fc.function;
     let mut it = Interner::new();
     let fcoq = coq_function(f, &mut it);
